@@ -46,8 +46,10 @@ def native_run(spec, tests, tag="replay"):
     try:
         hsrc = os.path.join(VERIF, "harness", spec["harness_file"])
         sc.prepare({}, native=True)
-        local = os.path.join(sc.dir, "harness_copy.rs")
+        shutil.copytree(os.path.join(VERIF, "harness"), os.path.join(sc.dir, "harness"))
+        local = os.path.join(sc.dir, "harness", spec["harness_file"])
         text = open(hsrc).read()
+        tests = tests[:4]
         text += "\n\n// ---- concrete playback tests (generated) ----\n" + "\n\n".join(t for _, t in tests) + "\n"
         open(local, "w").write(text)
         real = os.path.join(sc.src, spec["file"])
@@ -55,26 +57,31 @@ def native_run(spec, tests, tag="replay"):
             f.write('\n#[cfg(kani)]\n#[path = "%s"]\nmod verif_replay;\n' % local)
         cfg = sc.cfg
         reproduced, details = False, []
-        for tname, _ in tests:
-            cmd = ["cargo", "kani", "playback", "-Z", "concrete-playback", "-p", cfg["pkg"], "--no-default-features"]
-            if cfg["features"]:
-                cmd += ["--features", cfg["features"]]
-            cmd += ["--target-dir", sc.target, "--", tname]
-            try:
-                p = subprocess.run(cmd, cwd=sc.src, env=kani.ENV, stdout=subprocess.PIPE, stderr=subprocess.STDOUT, text=True,
-                                   timeout=1800)
-            except subprocess.TimeoutExpired:
-                details.append("%s: native run timed out (possible hang)" % tname)
-                continue
+        # default features stay ON here: tonic's own #[cfg(test)] modules (compiled by `cargo test`) need them
+        cmd = ["cargo", "kani", "playback", "-Z", "concrete-playback", "-p", cfg["pkg"]]
+        if cfg["features"]:
+            cmd += ["--features", cfg["features"]]
+        cmd += ["--", "kani_concrete_playback_", "--test-threads", "1"]
+        env = dict(kani.ENV)
+        env["CARGO_TARGET_DIR"] = sc.target
+        try:
+            p = subprocess.run(cmd, cwd=sc.src, env=env, stdout=subprocess.PIPE, stderr=subprocess.STDOUT, text=True,
+                               timeout=1800)
             out = p.stdout
-            if re.search(r"test result: FAILED", out) and ("panicked at" in out):
-                pm = re.search(r"panicked at ([^\n]*)\n([^\n]*)", out)
-                details.append("%s: reproduced natively: %s" % (tname, (pm.group(1) + " " + pm.group(2)) if pm else "panic"))
-                reproduced = True
-            elif re.search(r"test result: ok", out):
-                details.append("%s: native run passed (counterexample does not reproduce)" % tname)
-            else:
-                details.append("%s: native build/run inconclusive: %s" % (tname, out[-600:]))
+        except subprocess.TimeoutExpired as e:
+            out = (e.stdout or b"").decode("utf8", "replace") if isinstance(e.stdout, bytes) else (e.stdout or "")
+            details.append("native run timed out after 1800s (possible hang)")
+        failed = re.findall(r"test \S*(kani_concrete_playback_\w+) \.\.\. FAILED", out)
+        passed = re.findall(r"test \S*(kani_concrete_playback_\w+) \.\.\. ok", out)
+        if failed:
+            reproduced = True
+            pm = re.search(r"panicked at ([^\n]*)\n([^\n]*)", out)
+            details.append("reproduced natively (%d of %d playback tests panic): %s" % (
+                len(failed), len(failed) + len(passed), (pm.group(1) + " " + pm.group(2)) if pm else "panic"))
+        elif passed:
+            details.append("native run passed %d playback tests (counterexample does not reproduce)" % len(passed))
+        else:
+            details.append("native build/run inconclusive: %s" % out[-800:])
         return reproduced, "; ".join(details)
     finally:
         sc.cleanup()
